@@ -77,6 +77,9 @@ class LookupEncoder:
         self.lookup = Lookup(max_size=lookup_size)
         self.last_assigned_index = 0
         self.last_reused_index = 0
+        # Keys referenced by the row that is currently being encoded; their
+        # entries must stay in place until that row has been written.
+        self.pinned: set[str] = set()
 
     def encode_entry_index(self, key: str) -> int | None:
         """
